@@ -235,7 +235,15 @@ def c18_case(ctx, rng, n_targets):
     d = mk_dir(ctx, cfg)
     try:
         ref = None
-        for name, text in serialisations(rng, cfg):
+        sers = serialisations(rng, cfg)
+        stale = rng.choice(["none", "matches_first", "matches_other", "garbage_checksum"])
+        if stale != "none":
+            # e.g. left over from an earlier `config generate`: a source-less configuration has nothing to do with it
+            which = sers[0][1] if stale == "matches_first" else sers[min(3, len(sers) - 1)][1]
+            cs = hashlib.sha256(which.encode("utf-8")).hexdigest() if stale != "garbage_checksum" else "0" * 64
+            json.dump({"checksum": cs}, open(os.path.join(d, "Monorail.lock"), "w"))
+        ctx.count("lockfile_" + stale)
+        for name, text in sers:
             open(os.path.join(d, "Monorail.json"), "w", encoding="utf-8").write(text)
             outs = {}
             for api, args in (("config_show", ["config", "show"]), ("analyze", ["analyze", "--target-groups"]), ("target_show", ["target", "show", "--target-groups"])):
